@@ -67,6 +67,7 @@ def replay(spec):
     elif op == "copy":
         k = q.py_copy()
         k.py_add_reaction(nqt, 0, 1.0)
+        k.py_add_reaction(nqt + dt, 0, 3.0)          # stays pending in the copy: must not show up in the original
         k.py_advance_time()
         e = q.py_clear_copy()
         others.append(("clear_copy", e, [[0.0] * R for _ in range(C + 2)]))
